@@ -115,7 +115,7 @@ Definition decompress_gen (guard1 : bool) (s : list N) (cap : N) : res (list N) 
       else
         let* st := dloop guard1 (S (length r)) r [] ulen cap in
         if negb (nlen (snd st) =? ulen) || negb (is_nil (fst st)) then Err ERR_DATA   (* second test: commit 0d37a62 *)
-        else Ok (rev (snd st))
+        else Ok (frev (snd st))
   end.
 
 Definition step := step_gen true.
